@@ -23,7 +23,7 @@ UNIT_TIMEOUT = 900
 SIGMA_U = ["x", "y", ":"]
 NAMES = ["a", "b", "c", "d"]
 DELIMS = [":", "/", "::"]
-MODES = ["ctor", "incremental", "ctor+add", "synonyms-late"]
+MODES = ["ctor", "incremental", "ctor+add", "synonyms-late", "shared-list"]
 
 
 def bounds(tier):
@@ -115,6 +115,12 @@ def construct(recs, delim, mode, probe=None):
             m.records.append(r)
             if probe:
                 probe(conv, m)
+        return conv
+    if mode == "shared-list":
+        from ..impl import build_shared_list
+
+        conv = build_shared_list(recs, delim)
+        conv._c01_effective_model = True   # "registered" is what the converter's own records list says
         return conv
     if mode == "synonyms-late":
         conv = Converter([], delimiter=delim)
@@ -273,8 +279,10 @@ def run_case(case, ctx=None):
             # prefixes; for 4 prefixes the probe set (all strings up to probe_len) on every variant
             nstrings = sum(len(r.uri_prefixes) for r in recs)
             qs = Q if ((b["full_query_all_variants"] and nstrings <= 3) or only is not None) else P
+            if eff is not None:
+                qs = list(qs) + [up + t for up in sorted(eff.all_uri_prefixes()) for t in ("", "1")]
             for u in qs:
-                check_query(conv, eff or model, u, fails, where + (" (one record was rejected)" if eff else ""))
+                check_query(conv, eff or model, u, fails, where + (" (compared with the converter's own records list)" if eff else ""))
             if ctx is not None:
                 ctx.count("evaluations", len(qs) * 3)
                 ctx.count("validated")
